@@ -70,6 +70,7 @@ BigSeeds == {[seedtxt |-> t] @@ [Default EXCEPT !.seed = 1] :
                 t \in {"9007199254740992", "9007199254740993", "9007199254740995", "1000000000000000001", "4294967301"}}
 PctSweep == BigSeeds \cup {[Default EXCEPT !.rb = Num(k, 100)] : k \in 1..99} \cup {[Default EXCEPT !.lb = Num(k, 100)] : k \in 1..99}
             \cup {[Default EXCEPT !.tb = Num(k, 100)] : k \in 1..99} \cup {[Default EXCEPT !.lt = Num(k, 100)] : k \in 1..99}
+            \cup {[Default EXCEPT !.lt = Num(k, 100), !.fd = TRUE] : k \in {1, 3, 10, 25, 30, 31, 99}}
 
 Cases ==
     CASE Family = "grid"    -> SetToSeq(OneOff \cup TwoOff) \o [i \in 1..K |-> TLCEval(RandGridPoint(i))]
